@@ -1,6 +1,7 @@
 package rules
 
 import (
+	"sort"
 	"go/token"
 	"strings"
 
@@ -174,7 +175,7 @@ func (c *Ctx) restoreSpec(origFields map[string]bool, tb *ir.TB) ir.TSpec {
 }
 
 func c03(c *Ctx) {
-	c.R.Explanation = "C03: structural necessary conditions decided on the SSA of /repo. R-exit = in the control goroutine of every FanController.Run implementation (the run.Group actor whose call tree reaches UpdateFanSpeed) every path from entry to a return ends in state 'restored' of a typestate whose accepting events are (a) the success edge (err == nil) of Fan.SetPwmEnabled(x) with x = the controller field recorded from GetPwmEnabled() at start and the call dominated by x != ControlModePWM, or (b) Fan.SetPwm(255); any other Fan.SetPwm / SetPwmEnabled(manual) resets it. Helper functions are followed with state-relation summaries (this is R-shape: the restore routine itself must reach 'restored' on all paths). R-init = from the error edge of RunInitializationSequence in Run every return is preceded by a call that establishes 'restored'. R-readback = every Fan.SetPwmEnabled implementation that writes a mode file returns nil after a successful write only across an edge establishing read-back == requested value (or the documented ErrPermission exception). R-signal = the signal actor receives from a channel registered with signal.Notify for SIGTERM and SIGINT, an interrupt function of the same run.Group calls the cancel function of the context.WithCancel whose context is handed to every FanController.Run, and that channel is closed only after signal.Stop on all paths. R-actor-nil (shared with C09) = every actor of the per-fan groups and the sensor monitor returns the nil constant: a non-nil actor error reaches panic(err) / ui.Fatal and kills the process during shutdown before the fans are restored. R-write = every Fan.SetPwm implementation passes a write to the device (a library Write*/exec run, directly or through a repository helper) on every path that can return a nil error: the typestate takes a nil result of SetPwm(255) for 'the fan is at full speed'. Not decided: driver behaviour, timing, a final PWM write that itself fails, crashes (C09)."
+	c.R.Explanation = "C03: structural necessary conditions decided on the SSA of /repo. R-exit = in the control goroutine of every FanController.Run implementation (the run.Group actor whose call tree reaches UpdateFanSpeed) every path from entry to a return ends in state 'restored' of a typestate whose accepting events are (a) the success edge (err == nil) of Fan.SetPwmEnabled(x) with x = the controller field recorded from GetPwmEnabled() at start and the call dominated by x != ControlModePWM, or (b) Fan.SetPwm(255); any other Fan.SetPwm / SetPwmEnabled(manual) resets it. Helper functions are followed with state-relation summaries (this is R-shape: the restore routine itself must reach 'restored' on all paths). R-init = from the error edge of RunInitializationSequence in Run every return is preceded by a call that establishes 'restored'. R-readback = every Fan.SetPwmEnabled implementation that writes a mode file returns nil after a successful write only across an edge establishing read-back == requested value (or the documented ErrPermission exception). R-signal = the signal actor receives from a channel registered with signal.Notify for SIGTERM and SIGINT, an interrupt function of the same run.Group calls the cancel function of the context.WithCancel whose context is handed to every FanController.Run, and that channel is closed only after signal.Stop on all paths. R-actor-nil (shared with C09) = every actor of the per-fan groups and the sensor monitor returns the nil constant: a non-nil actor error reaches panic(err) / ui.Fatal and kills the process during shutdown before the fans are restored. R-write = every Fan.SetPwm implementation passes a write to the device (a library Write*/exec run, directly or through a repository helper) on every path that can return a nil error: the typestate takes a nil result of SetPwm(255) for 'the fan is at full speed'. R-single-writer = of the actors of the per-fan run.Group at most one (the control loop, which also hands the fan back) can reach Fan.SetPwm / SetPwmEnabled: the actors stop independently, so a write from a sibling actor can land after the final restore. Not decided: driver behaviour, timing, a final PWM write that itself fails, crashes (C09)."
 	c.R.Assumptions = append(c.R.Assumptions,
 		"oklog/run: Add(execute, interrupt): when the first actor returns every interrupt function is called once",
 		"os/signal sends non-blockingly to every channel registered with Notify until Stop; a send on a closed channel panics",
@@ -200,6 +201,37 @@ func c03(c *Ctx) {
 	}
 	for _, f := range c.ConvertedImplMethods(PkgInternal, "SensorMonitor", "Run") {
 		c.actorNil(f, "sensor monitor")
+	}
+	// R-single-writer: of the actors of the per-fan group only the one that hands the fan back (the control loop)
+	// may drive the fan. The group's actors end independently: a sibling actor that can still write a PWM value or
+	// the mode (a kick-start from the RPM monitor) can do so after the control actor's final restore.
+	isDrive := func(cc ssa.CallInstruction) bool {
+		return isFanInvoke(cc, "SetPwm") || isFanInvoke(cc, "SetPwmEnabled")
+	}
+	for _, run := range c.ImplMethods(PkgCtrl, "FanController", "Run") {
+		actors := groupActors(run)
+		var drivers []*ssa.Function
+		for _, a := range actors {
+			for _, f := range []*ssa.Function{a.execute, a.intr} {
+				if f != nil && c.reaches(f, isDrive) {
+					drivers = append(drivers, f)
+				}
+			}
+		}
+		key := c.FK(run)
+		switch {
+		case len(actors) == 0:
+			c.R.Undecided("R-single-writer", key, key, c.P.Pos(run.Pos()), "no run.Group actors found in the controller's Run (anchor unresolved)")
+		case len(drivers) > 1:
+			var names []string
+			for _, d := range drivers {
+				names = append(names, c.FK(d))
+			}
+			sort.Strings(names)
+			c.R.Bad("R-single-writer", key, key, c.P.Pos(run.Pos()), "more than one actor of the per-fan group can write the fan's PWM or mode ("+strings.Join(names, ", ")+"): the actors stop independently, so a write from the sibling can land after the control actor handed the fan back, leaving it in manual mode at a regulation value")
+		default:
+			c.R.Ok("R-single-writer", key, key, c.P.Pos(run.Pos()), sprintf("%d actors, %d of them can write the fan's PWM / mode", len(actors), len(drivers)))
+		}
 	}
 }
 
